@@ -22,7 +22,8 @@ type canaryT struct {
 
 var canary *canaryT
 
-func startCanary(maxDur time.Duration) {
+// pool = false: only the sleeper (a solo process keeps the timer pool to the scenario under study)
+func startCanary(maxDur time.Duration, pool bool) {
 	c := &canaryT{start: time.Now(), buckets: make([]int64, int(maxDur/time.Millisecond)+10)}
 	canary = c
 	go func() {
@@ -46,7 +47,9 @@ func startCanary(maxDur time.Duration) {
 			arm()
 		}, d)
 	}
-	arm()
+	if pool {
+		arm()
+	}
 }
 
 // note records lateness late observed at instant at; it is attributed to every
